@@ -37,18 +37,18 @@ impl Flag {
     pub fn load(&self, o: Ordering) -> (r: bool) ensures r == self.v { self.v }
 }
 
-pub uninterp spec fn errs(log: Seq<StatType>) -> int;      // number of Error entries (ErrorStats::err_count: Kani full_collector_errors)
+pub use ax::errs;
 pub uninterp spec fn fatal(log: Seq<StatType>) -> bool;    // some Fatal entry (Kani full_collector_errors)
 
 pub struct ErrIter;
 pub struct ErrorStats;
 impl ErrorStats { #[verifier::external_body] pub fn errors_as_slice_iter(&self) -> (r: ErrIter) { unimplemented!() } }
 
-pub struct StatsCollector { pub log: Ghost<Seq<StatType>>, pub finalized: Ghost<Seq<bool>>, pub es: ErrorStats }
+pub struct StatsCollector { pub log: Ghost<Seq<StatType>>, pub finalized: Ghost<Seq<bool>>, pub es: ErrorStats, pub written: Ghost<Seq<(DataOutputMode, DataOutputFormat)>> }
 impl StatsCollector {
     #[verifier::external_body]
     pub fn collect(&mut self, s: StatType)
-        ensures final(self).log@ == old(self).log@.push(s), final(self).finalized == old(self).finalized,
+        ensures final(self).log@ == old(self).log@.push(s), final(self).finalized == old(self).finalized, final(self).written == old(self).written,
             errs(final(self).log@) == errs(old(self).log@) + (if s is Error { 1int } else { 0 }),
             fatal(final(self).log@) == (fatal(old(self).log@) || s is Fatal),
     { unimplemented!() }
@@ -58,7 +58,7 @@ impl StatsCollector {
     #[verifier::external_body] pub fn hbfs_seen(&self) -> (r: u32) { unimplemented!() }
     #[verifier::external_body]
     pub fn finalize(&mut self, mute_errors: bool)
-        ensures final(self).log == old(self).log, final(self).finalized@ == old(self).finalized@.push(mute_errors)
+        ensures final(self).log == old(self).log, final(self).finalized@ == old(self).finalized@.push(mute_errors), final(self).written == old(self).written
     { unimplemented!() }
     pub fn error_stats(&self) -> (r: &ErrorStats) { &self.es }
     /// comparison with the statistics read from a file (unit v_collector_validate)
@@ -68,9 +68,14 @@ impl StatsCollector {
     /// custom checks on the collected statistics may add errors (E9001.., Kani full_validate_custom_stats), never remove any
     #[verifier::external_body]
     pub fn validate_custom_stats(&mut self, cfg: &Cfg)
-        ensures errs(final(self).log@) >= errs(old(self).log@), fatal(final(self).log@) == fatal(old(self).log@), final(self).finalized == old(self).finalized
+        ensures errs(final(self).log@) >= errs(old(self).log@), fatal(final(self).log@) == fatal(old(self).log@), final(self).finalized == old(self).finalized, final(self).written == old(self).written
     { unimplemented!() }
     #[verifier::external_body] pub fn unique_error_codes_as_slice(&self) -> (r: &[u64]) { unimplemented!() }
+    /// serialises the statistics and writes them out (unit v_write_stats)
+    #[verifier::external_body]
+    pub fn write_stats(&mut self, mode: &DataOutputMode, format: DataOutputFormat)
+        ensures final(self).written@ == old(self).written@.push((*mode, format)), final(self).log == old(self).log, final(self).finalized == old(self).finalized
+    { unimplemented!() }
 }
 
 // ---- the statistics file to compare against (`--input-stats-file`)
@@ -119,12 +124,19 @@ pub struct CodeFilter;
 pub struct ViewCmd;
 #[derive(PartialEq, Eq, Structural, Clone, Copy)]
 pub enum DataOutputMode { File, Stdout, None }
+#[allow(clippy::upper_case_acronyms)]
+#[derive(PartialEq, Eq, Structural, Clone, Copy)]
+pub enum DataOutputFormat { JSON, TOML }
+pub uninterp spec fn cfg_stats_mode() -> DataOutputMode;               // --output-stats
+pub uninterp spec fn cfg_stats_format() -> Option<DataOutputFormat>;   // --stats-format
 pub struct Cfg;
 impl Cfg {
     #[verifier::external_body] pub fn input_stats_file(&self) -> (r: Option<&PathBuf>) ensures r.is_some() == stats_file().is_some(), r matches Some(p) ==> *p == stats_file().unwrap() { unimplemented!() }
     #[verifier::external_body] pub fn custom_checks_enabled(&self) -> (r: bool) { unimplemented!() }
     #[verifier::external_body] pub fn view(&self) -> (r: Option<ViewCmd>) { unimplemented!() }
     #[verifier::external_body] pub fn output_mode(&self) -> (r: DataOutputMode) { unimplemented!() }
+    #[verifier::external_body] pub fn stats_output_mode(&self) -> (r: DataOutputMode) ensures r == cfg_stats_mode() { unimplemented!() }
+    #[verifier::external_body] pub fn stats_output_format(&self) -> (r: Option<DataOutputFormat>) ensures r == cfg_stats_format() { unimplemented!() }
     #[verifier::external_body] pub fn max_tolerate_errors(&self) -> (r: u32) ensures r == cfg_cap() { unimplemented!() }
     #[verifier::external_body] pub fn mute_errors(&self) -> (r: bool) ensures r == cfg_mute() { unimplemented!() }
     #[verifier::external_body] pub fn error_code_filter(&self) -> (r: Option<&CodeFilter>) ensures r.is_some() == cfg_filter() { unimplemented!() }
@@ -151,7 +163,38 @@ impl ProgressBar {
     #[verifier::external_body] pub fn abandon(&self) { unimplemented!() }
 }
 
+pub struct StatSender;
+pub struct RecvErr;
+/// the statistics channel: `queue` = everything the producers send before they all drop their senders, in arrival order;
+/// recv fails only when the channel is disconnected and drained
+pub struct StatReceiver { pub queue: Ghost<Seq<StatType>>, pub taken: Ghost<Seq<StatType>> }
+impl StatReceiver {
+    #[verifier::external_body]
+    pub fn recv(&mut self) -> (r: Result<StatType, RecvErr>)
+        ensures
+            (r matches Ok(t) ==> old(self).queue@.len() > 0 && t == old(self).queue@[0]
+                && final(self).queue@ == old(self).queue@.subrange(1, old(self).queue@.len() as int) && final(self).taken@ == old(self).taken@.push(t)),
+            (r is Err ==> old(self).queue@.len() == 0 && final(self).queue == old(self).queue && final(self).taken == old(self).taken),
+    { unimplemented!() }
+}
+/// errs counts entries
+pub mod ax {
+    use vstd::prelude::*;
+    use crate::*;
+    pub uninterp spec fn errs(log: Seq<StatType>) -> int;      // number of Error entries (ErrorStats::err_count: Kani full_collector_errors)
+    #[verifier::external_body]
+    pub broadcast proof fn axiom_errs_nonneg(log: Seq<StatType>) ensures #[trigger] errs(log) >= 0 {}
+}
+broadcast use ax::axiom_errs_nonneg;
+/// what the collector has recorded after the controller saw one more statistic (contract of `update`)
+pub open spec fn applied(log: Seq<StatType>, s: StatType) -> Seq<StatType> { if is_error_kind(s) && fatal(log) { log } else { log.push(s) } }
+pub open spec fn applied_all(log: Seq<StatType>, q: Seq<StatType>, n: int) -> Seq<StatType> decreases n {
+    if n <= 0 { log } else { applied(applied_all(log, q, n - 1), q[n - 1]) }
+}
+
 pub struct Controller {
+    pub stats_send_chan: Option<StatSender>,
+    pub stats_recv_chan: StatReceiver,
     pub stats_collector: StatsCollector,
     pub config: &'static Cfg,
     pub max_tolerate_errors: u32,
@@ -166,11 +209,13 @@ impl Controller {
     #[verifier::external_body]
     fn set_spinner_msg(&mut self, new_msg: Msg)
         ensures final(self).stats_collector == old(self).stats_collector, final(self).max_tolerate_errors == old(self).max_tolerate_errors,
+            final(self).stats_send_chan == old(self).stats_send_chan, final(self).stats_recv_chan == old(self).stats_recv_chan,
             final(self).end_processing_flag == old(self).end_processing_flag, final(self).any_errors_flag == old(self).any_errors_flag
     { unimplemented!() }
     #[verifier::external_body]
     fn new_spinner_with_prefix(&mut self, prefix: Msg)
         ensures final(self).stats_collector == old(self).stats_collector, final(self).max_tolerate_errors == old(self).max_tolerate_errors,
+            final(self).stats_send_chan == old(self).stats_send_chan, final(self).stats_recv_chan == old(self).stats_recv_chan,
             final(self).end_processing_flag == old(self).end_processing_flag, final(self).any_errors_flag == old(self).any_errors_flag,
             final(self).spinner.is_some()
     { unimplemented!() }
@@ -183,8 +228,32 @@ impl Controller {
     #[verifier::external_body]
     fn print(&mut self)
         ensures final(self).stats_collector == old(self).stats_collector, final(self).max_tolerate_errors == old(self).max_tolerate_errors,
+            final(self).stats_send_chan == old(self).stats_send_chan, final(self).stats_recv_chan == old(self).stats_recv_chan,
             final(self).end_processing_flag == old(self).end_processing_flag, final(self).any_errors_flag == old(self).any_errors_flag
     { unimplemented!() }
+
+    /// first statements of Controller::run: the receive loop
+    fn site_run_loop(&mut self)
+        requires old(self).max_tolerate_errors == cfg_cap(), old(self).stats_recv_chan.taken@.len() == 0,
+        ensures
+            final(self).stats_send_chan is None, // [C14] the controller's own sender is dropped first, so the loop can end when the producers are done
+            final(self).stats_recv_chan.queue@.len() == 0 && final(self).stats_recv_chan.taken@ =~= old(self).stats_recv_chan.queue@, // [C14][C16] the loop ends only when every statistic sent has been received
+            final(self).stats_collector.log@ == applied_all(old(self).stats_collector.log@, old(self).stats_recv_chan.queue@, old(self).stats_recv_chan.queue@.len() as int), // [C14][C16] each one is handed to `update` exactly once, in arrival order
+            final(self).any_errors_flag == old(self).any_errors_flag, final(self).stats_collector.finalized == old(self).stats_collector.finalized, final(self).max_tolerate_errors == old(self).max_tolerate_errors,
+    {
+        let ghost q0 = self.stats_recv_chan.queue@;
+//@EXTRACT run_loop
+    }
+
+    /// statement of Controller::run between the any-errors decision and the statistics-file comparison
+    fn site_run_write_stats(&mut self)
+        requires !(cfg_stats_mode() is None) ==> cfg_stats_format() is Some,   // clap: --output-stats `requires` --stats-format (CLI parsing not verified)
+        ensures
+            final(self).stats_collector.written@ == (if cfg_stats_mode() is None { old(self).stats_collector.written@ } else { old(self).stats_collector.written@.push((cfg_stats_mode(), cfg_stats_format().unwrap())) }), // [C15][C14] the statistics are written exactly when an output is configured, once, to that destination in that format
+            final(self).stats_collector.log == old(self).stats_collector.log, final(self).stats_collector.finalized == old(self).stats_collector.finalized, final(self).any_errors_flag == old(self).any_errors_flag,
+    {
+//@EXTRACT run_write_stats
+    }
 
     /// last statements of Controller::run: comparison with a statistics file
     fn site_run_stats_file(&mut self)
@@ -206,7 +275,7 @@ impl Controller {
         ensures
             final(self).any_errors_flag.v == (old(self).any_errors_flag.v || errs(final(self).stats_collector.log@) > 0 || fatal(final(self).stats_collector.log@)), // [C16] the any-errors status is set by any error, custom-check failure or fatal input error - also when it is the only one
             errs(final(self).stats_collector.log@) >= errs(old(self).stats_collector.log@), fatal(final(self).stats_collector.log@) == fatal(old(self).stats_collector.log@), // [C16][C14] the end-of-run steps never lose an error
-            final(self).stats_collector.finalized@.len() <= old(self).stats_collector.finalized@.len() + 1, // [C14] statistics are finalised at most once
+            final(self).stats_collector.finalized@ == old(self).stats_collector.finalized@.push(cfg_mute()), // [C14][C05][C15] the statistics are finalised exactly once - sorted error list, distinct error codes, staves with errors, sorted links - before they are written out or compared with a statistics file, whether or not the report is shown
     {
 //@EXTRACT run_tail
         }
